@@ -537,6 +537,10 @@ func runOrdDesc(c *core.Ctx) {
 	scan := P.Method(P.Root, "EventCache", "findNeedLock")
 	for _, fn := range []*ssa.Function{find, scan} {
 		if fn == nil {
+			if find != nil && scan == nil {
+				// the scan folded into Find: the region of Find above holds both iterations
+				c.Trivial(nil, fname(c, find), "iteration(scan folded into Find)", P.Pos(find.Pos()), "the locked body is part of Find: its iterations are counted there")
+			}
 			continue
 		}
 		fwd, rev := 0, 0
@@ -609,6 +613,10 @@ func runTopkBnd(c *core.Ctx) {
 func runScanLimit(c *core.Ctx) {
 	P := c.P
 	scan := P.Method(P.Root, "EventCache", "findNeedLock")
+	if scan == nil {
+		// the locked body folded into Find itself
+		scan = P.Method(P.Root, "EventCache", "Find")
+	}
 	if scan == nil {
 		c.NoAnchor(nil, "EventCache.findNeedLock")
 		return
